@@ -168,6 +168,17 @@ public:
   /**
    * @}
    */
+
+protected:
+  /**
+   * @brief Check a vector of break points: positions between 1 and nbSites - 1, in strictly increasing order
+   * (the forward and backward recursions walk through it in opposite directions).
+   *
+   * @param breakPoints The break points to check.
+   * @param nbSites The number of positions.
+   * @throw Exception If the vector is not valid.
+   */
+  static void checkBreakPoints_(const std::vector<size_t>& breakPoints, size_t nbSites);
 };
 } // end of namespace bpp.
 #endif // BPP_NUMERIC_HMM_HMMLIKELIHOOD_H
